@@ -431,26 +431,30 @@ def topological_sort(nodes):
             pass
 
 
-def _make_types_index(nodes_):
+def _make_types_index(nodes_, visited=None):
     """ Creates flat dictionary that maps model objects to its name. """
     included = set()
+    visited = set() if visited is None else visited  # files (by identity) already indexed through another include path
     for node_ in nodes_:
         if isinstance(node_, Include):
-            if node_.name not in included:
+            if node_.name not in included and id(node_.members) not in visited:
                 included.add(node_.name)
-                for included_name, included_type in _make_types_index(node_.members):
+                visited.add(id(node_.members))
+                for included_name, included_type in _make_types_index(node_.members, visited):
                     yield included_name, included_type
         elif not isinstance(node_, Constant):
             yield node_.name, node_
 
 
-def _collect_constants(nodes_, constants=None):
+def _collect_constants(nodes_, constants=None, visited=None):
     constants = constants or {}
     included = set()
+    visited = set() if visited is None else visited
     for node_ in nodes_:
-        if isinstance(node_, Include) and node_.name not in included:
+        if isinstance(node_, Include) and node_.name not in included and id(node_.members) not in visited:
             included.add(node_.name)
-            constants.update(_collect_constants(node_.members, constants))
+            visited.add(id(node_.members))
+            constants.update(_collect_constants(node_.members, constants, visited))
 
         elif isinstance(node_, Constant):
             constants[node_.name] = node_.eval_int(constants)
@@ -522,11 +526,12 @@ def evaluate_stiffness_kinds(nodes):
             node.calc_wire_stiffness()
 
 
-def evaluate_sizes(nodes, warn=null_warn):
+def evaluate_sizes(nodes, warn=null_warn, visited=None):
     """
     Adds byte_size and alignment to Struct, StructMember, Union, UnionMember.
     Requires cross referenced nodes and evaluated kinds.
     """
+    visited = set() if visited is None else visited  # included files (by identity) evaluated in this pass
 
     def evaluate_node_size(node_, parent, member):
         while isinstance(node_, Typedef) and node_.definition:
@@ -622,8 +627,9 @@ def evaluate_sizes(nodes, warn=null_warn):
         elif isinstance(node, Union):
             if evaluate_members_sizes(node):
                 evaluate_union_size(node)
-        elif isinstance(node, Include):
-            evaluate_sizes(node.members, warn)
+        elif isinstance(node, Include) and id(node.members) not in visited:
+            visited.add(id(node.members))
+            evaluate_sizes(node.members, warn, visited)
 
 
 def partition(members):
